@@ -255,6 +255,7 @@ def opProgram (op : SOp) (w : World) : Option (M Ret × World) := do
   | "disc" => pure (liftRet .opt (disconnect (a.getD 0 "" = "1")), w)
   | "addobs" => do let i ← (a.getD 0 "").toNat?; pure (pure .void, { w with observers := w.observers ++ [i] })
   | "rmobs" => do let i ← (a.getD 0 "").toNat?; pure (pure .void, { w with observers := w.observers.filter (· != i) })
+  | "rmin" => pure (pure .void, w)        -- arming only; the removal itself is applied by `applyReentrantRemovals` where it fired
   | "isconn" => pure (pure (.bool w.connected), w)
   | "faults" => pure (pure .void, w)
   | _ => none
@@ -312,6 +313,25 @@ def parseCfg (cfg : String) : World × String := Id.run do
     else if kv.startsWith "prop=" then prop := (kv.drop 5).toString
   (w, prop)
 
+/-- re-entrant removals (`orm:<i>:<j>` in the implementation's trace = observer i unregistered observer j from inside one of
+    its callbacks during this call): the model registers / unregisters observers only between calls, so the effect is applied
+    to its token stream here - from observer i's first event of the call on, observer j is told nothing (it is unlinked at
+    once: not even the event being delivered reaches it if it stands behind i), and it is gone for the following calls.
+    This part of the behaviour is modelled in the driver, not in the verified model. -/
+def applyReentrantRemovals (seg model : List String) (w' : World) : List String × World :=
+  let orms := seg.filterMap fun t => match t.splitOn ":" with
+    | ["orm", i, j] => (do let i ← i.toNat?; let j ← j.toNat?; pure (i, j))
+    | _ => none
+  orms.foldl (fun (acc : List String × World) (ij : Nat × Nat) =>
+    let (m, ww) := acc
+    let (i, j) := ij
+    match m.findIdx? (fun t => t.startsWith s!"o{i}:") with
+    | some k =>
+      let head := m.take (k + 1)
+      let tail := (m.drop (k + 1)).filter fun t => !t.startsWith s!"o{j}:"
+      (head ++ [s!"orm:{i}:{j}"] ++ tail, { ww with observers := ww.observers.filter (· != j) })
+    | none => (m, ww)) (model, w')
+
 /-- run the whole scenario in the model against the implementation's trace -/
 def viewsOf (w : World) (ops : List SOp) (segs : List (List String)) : Option (List OpView) :=
   match ops, segs with
@@ -322,6 +342,7 @@ def viewsOf (w : World) (ops : List SOp) (segs : List (List String)) : Option (L
     match runOp w op o with
     | none => none
     | some (model, w') =>
+      let (model, w') := applyReentrantRemovals seg model w'
       let asciiPut := op.name = "put" && w.ttype == .ascii
       let impl := canonImpl asciiPut true (seg.filter fun t => !isSummary t)
       let model := canonImpl asciiPut false model
